@@ -625,3 +625,41 @@ func ZZHarnessAttesterReplayAfterOthers() {
 	g.checkSigLog(H, "replay-after-others")
 	zzReach("end")
 }
+
+// ZZHarnessAttesterOthersThenDecide (C03): the duty is running; J decided certificates for other symbolic
+// heights arrive BEFORE the duty's own decision (a lagging node: they may push the running instance out of the
+// controller's bounded instance container); then the certificate for the duty height arrives twice (every peer
+// broadcasts it): exactly one signature for the decided object.
+func ZZHarnessAttesterOthersThenDecide() {
+	n := int(zzParam("N"))
+	j := int(zzParam("J"))
+	own := zzCommitteeIDs[n][int(zzParam("OWN"))]
+	g := zzNewRRig(n, own)
+	H := phase0.Slot(zzNondetRange("dutySlot", 2, 4))
+	g.bn.att.Slot = H
+	duty := &spectypes.Duty{Type: spectypes.BNRoleAttester, Slot: H, ValidatorIndex: 7, CommitteeLength: 4}
+	zzAssume(g.r.StartNewDuty(g.lg, duty) == nil)
+	ownValue, _ := zzCDEncode(&spectypes.ConsensusData{Duty: *duty, Version: spec.DataVersionPhase0, DataSSZ: []byte{0xA7, 1}})
+	zzPhase = 2
+	for step := 0; step < j; step++ {
+		h := specqbft.Height(uint64(H) + zzNondetRange("dh", 0, 4) - 1)
+		zzAssume(uint64(h) != uint64(H))
+		otherDuty := *duty
+		otherDuty.Slot = phase0.Slot(h)
+		val, _ := zzCDEncode(&spectypes.ConsensusData{Duty: otherDuty, Version: spec.DataVersionPhase0, DataSSZ: []byte{0xA7, 1}})
+		_ = g.r.ProcessConsensus(g.lg, g.decided(h, 1, val, int(g.share.Quorum)))
+		zzAssert(len(g.km.sigs) == 0, "certificates-for-other-heights-cause-no-signature")
+	}
+	_ = g.r.ProcessConsensus(g.lg, g.decided(specqbft.Height(H), 1, ownValue, int(g.share.Quorum)))
+	first := len(g.km.sigs)
+	zzAssert(first <= 1, "at-most-one-signature-at-the-decision")
+	if first == 1 {
+		zzReach("signed")
+	}
+	ns := int(g.share.Quorum) + zzChoose("extraSigners", 2)
+	_ = g.r.ProcessConsensus(g.lg, g.decided(specqbft.Height(H), 1, ownValue, ns))
+	zzPhase = 0
+	zzAssert(len(g.km.sigs) <= 1, "no-second-signature-for-the-decided-object-when-other-certificates-came-first")
+	g.checkSigLog(H, "others-then-decide")
+	zzReach("end")
+}
